@@ -200,7 +200,9 @@ def run(tier, seed):
     res = Result("C16", tier, seed)
     work = Work("C16")
     try:
+        t_phase = [time.time()]
         ok, blog = coq_build(["props/C16.vo", "corr/C16corr.vo"])
+        t_phase.append(time.time())
         proofs_ok, pa = proof_obligations(work, res, "C16.v", ok, blog)
         gate = m4x.gate_for(["props/C16.v", "corr/C16corr.v"])
         if gate:
@@ -208,7 +210,9 @@ def run(tier, seed):
             pa += "\nforbidden constructs: " + "; ".join(gate[:10])
         cases = gen_cases(seed, tier)
         scenarios = [scenario_of(h, m, s) for (h, m, s, _) in cases]
+        t_phase.append(time.time())
         harness_ok, gout, outs = m4x.go_run(work, scenarios, ["c16_test.go"])
+        t_phase.append(time.time())
         results, cert_obs = [], []
         if harness_ok and ok:
             terms = []
@@ -230,6 +234,7 @@ def run(tier, seed):
                     "c16_cert_mismatches fixed (upto_panic h) cs, c16_monitor (upto_panic h) cs, "
                     "targets_modelled h, c16_stats (upto_panic h) cs)")
             results = m4x.coq_map(work, IMPORTS, defs, terms, expr, "C16", shard=5)
+        t_phase.append(time.time())
         mon_fail, disagree = [], []
         stats = [0, 0, 0, 0]
         for j, r in enumerate(results):
@@ -275,6 +280,8 @@ def run(tier, seed):
                                      "sub_path_service_snapshots_judged_for_inheritance": stats[2],
                                      "certificate_answers_not_refused_judged": stats[3],
                                      "max_virtual_ns_spent_in_getcertificate": elapsed},
+            "phase_s": dict(zip(["coq_build_incl_lock_wait", "proof_obligations_and_generation", "go_harness", "coq_evaluation"],
+                                [round(b - a, 1) for a, b in zip(t_phase, t_phase[1:])])),
             "samples": [{"history": [m4.cmd_term(c) for c in cases[0][0]][:5]}],
             "correspondence": {"histories": len(cases), "model_disagreements": len(disagree), "monitor_failures": len(mon_fail)},
         })
